@@ -17,7 +17,8 @@ var checks = map[string]func(prop, tier string) int{
 	"C01": filterchk.MainC01,
 	"C02": algochk.Main,
 	"C03": algochk.Main,
-	"C05": algochk.Main,
+	"C04": filterchk.MainC04,
+	"C05": func(p, t string) int { return algochk.MainWith(p, t, filterchk.C05SubPhase) },
 	"C10": fieldchk.Main,
 	"C11": ansichk.Main,
 }
